@@ -33,7 +33,7 @@ ASSUMPTIONS = [
 ]
 SETTINGS: Dict[str, Dict[str, Any]] = {
     "quick": {"cases": 160, "budget_s": 60, "minimums": {"links_checked": 8000, "hidden_plain_cells": 60, "summary_links": 400, "nontrivial": 30, "reports_written_second_in_one_interpreter": 15}, "required_tags": {"tag_family": ["colliding-row-ids", "own-year-order-inversion", "sheet-rows-equal-to-tax-years", "dust-taken-from-a-huge-lot", "general"]}},
-    "thorough": {"cases": 3600, "budget_s": 420, "minimums": {"links_checked": 80000, "hidden_plain_cells": 600, "summary_links": 5000, "nontrivial": 300, "reports_written_second_in_one_interpreter": 300}, "required_tags": {"tag_family": ["colliding-row-ids", "own-year-order-inversion", "sheet-rows-equal-to-tax-years", "dust-taken-from-a-huge-lot", "general"]}},
+    "thorough": {"cases": 3600, "budget_s": 420, "minimums": {"links_checked": 48000, "hidden_plain_cells": 360, "summary_links": 3000, "nontrivial": 180, "reports_written_second_in_one_interpreter": 180}, "required_tags": {"tag_family": ["colliding-row-ids", "own-year-order-inversion", "sheet-rows-equal-to-tax-years", "dust-taken-from-a-huge-lot", "general"]}},
 }
 
 
